@@ -1,11 +1,17 @@
 """C19 — shot results -> register bitstrings by the documented (replay-in-order) convention."""
-from hugr.qsystem.result import REG_INDEX_PATTERN, QsysResult, QsysShot
+import re
+
+from hugr.qsystem.result import QsysResult, QsysShot
+
+# the documented tag grammar for an indexed write, "name[n]": a lower-case-initial identifier followed by a decimal index in
+# brackets (the oracle's own copy: the implementation's pattern is part of what is checked)
+REG_INDEX_PATTERN = re.compile(r"^([a-z][A-Za-z0-9_]*)\[([0-9]+)\]$")
 
 from vrf.lemma import P, lemma
 from vrf.symx import sym
 
-TAGS_Q = ["c", "c[0]", "c[1]", "d", "c[2]", "C[0]"]
-TAGS_T = TAGS_Q + ["d[0]", "c[x]", "c[10]"]
+TAGS_Q = ["c", "c[0]", "c[1]", "d", "c[10]", "C[0]"]
+TAGS_T = TAGS_Q + ["d[0]", "c[x]", "c[2]", "c_1[0]"]
 
 
 class _Bad(Exception):
